@@ -51,6 +51,8 @@ class BuiltinMixin:
         raise Unsupported('call of extern %s (line %s)' % (dotted, getattr(node, 'lineno', '?')))
 
     def extern_getattr(self, base, attr, node):
+        if attr == '__name__':
+            return base.dotted.split('.')[-1]
         full = base.dotted + '.' + attr
         if full in EXTERN_ATTRS:
             v = EXTERN_ATTRS[full]
@@ -93,6 +95,23 @@ class BuiltinMixin:
         return {'MutableMapping': 'collections.abc.MutableMapping',
                 'OrderedDict': 'collections.OrderedDict'}.get(last, base)
 
+    def find_extern_method(self, cls, name):
+        if isinstance(cls, extract.ClassInfo):
+            for c in self.P.mro(cls):
+                if isinstance(c, tuple):
+                    f = EXTERN_METHODS.get((self.extern_base_key(c[1]), name))
+                    if f:
+                        return f
+            return None
+        f = EXTERN_METHODS.get((cls, name))
+        if f:
+            return f
+        for b in self.EXTERN_SUBCLASS.get(cls, ()):
+            f = self.find_extern_method(b, name)
+            if f:
+                return f
+        return None
+
     def extern_super_model(self, selfv, base, name, args, kwargs, node):
         key = self.extern_base_key(base)
         f = EXTERN_METHODS.get((key, name))
@@ -101,10 +120,10 @@ class BuiltinMixin:
         return NotImplemented
 
     def extern_obj_truth(self, ref, o):
-        f = EXTERN_METHODS.get((o.cls, '__bool__'))
+        f = self.find_extern_method(o.cls, '__bool__')
         if f:
             return f(self, ref, o, [], {}, None)
-        f = EXTERN_METHODS.get((o.cls, '__len__'))
+        f = self.find_extern_method(o.cls, '__len__')
         if f:
             return self.truth(f(self, ref, o, [], {}, None))
         return NotImplemented
@@ -146,13 +165,13 @@ class BuiltinMixin:
             yield v
 
     def extern_obj_getitem(self, ref, o, idx, node):
-        f = EXTERN_METHODS.get((o.cls, '__getitem__'))
+        f = self.find_extern_method(o.cls, '__getitem__')
         if f:
             return f(self, ref, o, [idx], {}, node)
         return NotImplemented
 
     def extern_obj_setitem(self, ref, o, idx, v, node):
-        f = EXTERN_METHODS.get((o.cls, '__setitem__'))
+        f = self.find_extern_method(o.cls, '__setitem__')
         if f:
             return f(self, ref, o, [idx, v], {}, node)
         return NotImplemented
@@ -187,6 +206,8 @@ class BuiltinMixin:
                 if o.size is None:
                     raise Unsupported('len of symbolic map without size ghost')
                 return o.size
+            if isinstance(o, Obj) and o.cls == 'builtins.bytearray':
+                return self.str_len(o.fields['data'])
             if isinstance(o, Obj):
                 if isinstance(o.cls, extract.ClassInfo):
                     ln = self.P.lookup_method(o.cls, '__len__')
